@@ -78,6 +78,8 @@ def _plain_path(n):
         return _plain_path(n["e"])
     if k == "call" and (n.get("name") in ("std::move", "std::forward")) and n.get("args"):
         return _plain_path(n["args"][0])
+    if k == "call" and n.get("op") in ("*", "->") and n.get("this") is not None and not n.get("args"):
+        return _plain_path(n["this"])  # *it / it-> of an iterator that is itself an access path
     return False
 
 
